@@ -233,12 +233,15 @@ func sameValue(a, b value) bool {
 	case uniqH:
 		y, ok := b.(uniqH)
 		return ok && sameValue(x.v, y.v)
+	case symPtr:
+		y, ok := b.(symPtr)
+		return ok && x.idx == y.idx && len(x.elems) == len(y.elems) && (len(x.elems) == 0 || &x.elems[0] == &y.elems[0])
 	}
 	if b == nil {
 		return false
 	}
 	switch b.(type) {
-	case []value, structure, array, tuple, symstr, uniqH:
+	case []value, structure, array, tuple, symstr, uniqH, symPtr:
 		return false
 	}
 	return a == b
